@@ -349,7 +349,10 @@ def run_sharded(prop: str, tier: str, seed: int, nshards: int, timeout: float, e
                 [sys.executable, "-m", "vf.run", prop, "--tier", tier,
                  "--shard", f"{i}/{nshards}", "--partial", part],
                 cwd=VERIF_ROOT,
-                env={**env, "VERIF_SEED": str(seed)},
+                # a quarter of the shards each run with nauyaca's logging configured as production does (DEBUG level, JSON
+                # / console renderer, hashed addresses, a scratch log file): log calls then go through their real
+                # processors.  Which shard gets which mode rotates with the seed; VF_LOG_MODE set by hand wins
+                env={**env, "VERIF_SEED": str(seed), **({} if "VF_LOG_MODE" in os.environ else {"VF_LOG_MODE": ("quiet", "debug-json", "quiet", "debug-console")[(i + seed) % 4]})},
                 stdout=log,
                 stderr=subprocess.STDOUT,
             )
